@@ -8,6 +8,7 @@
 (*   [a |-> "PASS"]                                        pass_begin of pass 2, 3, ..                    *)
 (*   [a |-> "STMT", st |-> statement, obs |-> <<o..>>, err |-> BOOLEAN]   generated programs: the abstract *)
 (*        statement that was rendered into this line and what the hooks recorded while it was processed   *)
+(*        (optional field more |-> <<st..>>: the further arguments of a FORWARD/PUBLIC/GLOBAL list)       *)
 (*   [a |-> "SECT", n], [a |-> "ENDSECT", n], [a |-> "PP", k, n, q], [a |-> "LINE", obs, forms, lenient]  *)
 (*        corpus programs: SECTION / ENDSECTION / FORWARD, PUBLIC, GLOBAL statements (names already       *)
 (*        case-folded the way the run was configured) and any other line with its recorded observations   *)
@@ -67,6 +68,11 @@ ApplyObs(st, os, k, forms, lenient) ==
        ELSE IF RefOK(st, o, forms, lenient) THEN ApplyObs(st, os, k + 1, forms, lenient)
             ELSE [ok |-> FALSE, s |-> st]
 
+\* a source line = one statement; a FORWARD/PUBLIC/GLOBAL statement with an argument list is several elements
+\* (e.st and the further arguments e.more), processed one after the other like the loop of CodePPSyms
+RECURSIVE StepLine(_, _)
+StepLine(st, els) == IF els = <<>> THEN st ELSE StepLine(Step(st, Head(els)), Tail(els))
+
 TInit == s = InitS(FALSE, PINNED) /\ l = 1 /\ perr = FALSE
 
 TNext ==
@@ -75,7 +81,7 @@ TNext ==
   /\ LET e == TraceLog[l] IN
        CASE e.a = "RESET" -> s' = InitS(e.cs, {d \in PINNED : \E k \in 1..Len(e.devs) : e.devs[k] = d}) /\ perr' = FALSE
          [] e.a = "PASS"  -> s' = NextPass(ExitPass(s)) /\ perr' = FALSE
-         [] e.a = "STMT"  -> LET n == Step(s, e.st) IN
+         [] e.a = "STMT"  -> LET n == StepLine(s, <<e.st>> \o (IF "more" \in DOMAIN e THEN e.more ELSE <<>>)) IN
                                /\ ObsMatch(n.obs, e.obs)
                                /\ (n.errs > s.errs) = e.err
                                /\ s' = n /\ perr' = perr
